@@ -583,7 +583,12 @@ def rewrite_R10(toks, log, u, unit_name):
         anchor = sct["label"].split(":", 1)[1].strip()
         want = [t.text for t in lex(anchor) if t.kind not in ("ws", "comment")] + ["=>"]
         sigk = [k for k, t in enumerate(toks) if t.kind not in ("ws", "comment")]
-        hits = [a for a in range(len(sigk) - len(want) + 1) if all(toks[sigk[a + b]].text == want[b] for b in range(len(want)))]
+        # a binder introduced by `ref` in the anchor pattern matches any identifier (the arm is named by its variant, not by the binder's name)
+        def _tok_ok(tk, b):
+            if b > 0 and want[b - 1] == "ref" and re.match(r"^[a-z_][A-Za-z0-9_]*$", want[b]):
+                return tk.kind == "ident"
+            return tk.text == want[b]
+        hits = [a for a in range(len(sigk) - len(want) + 1) if all(_tok_ok(toks[sigk[a + b]], b) for b in range(len(want)))]
         if len(hits) != 1:
             raise Undecided("anchor lost: opaque-arm %r matches %d places in %s" % (anchor, len(hits), unit_name))
         a = hits[0]
@@ -808,7 +813,7 @@ def _emit_zipfold(args, inner, line, nzip, unit_name, log):
             rb.append(tk)
         if tk.kind not in ("ws", "comment"):
             prev = tk
-    btxt = _rewrite_R13(rb, line, log)
+    btxt = _rewrite_R13(rb, line, log).rstrip().rstrip(",").rstrip()      # a trailing comma after the last argument is not part of the body
     txt = ["{"]
     txt.append("zipfold_check%d(%s);" % (len(args), ", ".join(("&*" + r if mt == "axis_iter_mut" else "&" + r) + ", " + a_ for r, mt, a_ in zip(recv, meth, axes))))
     txt.append("let %s_n = %s.len_of(%s); let mut %s_i: usize = 0; let mut %s_acc = %s; let mut %s_go = true;" % (z, recv[0], ax, z, z, init, z))
@@ -1110,6 +1115,13 @@ def apply_renames(u, ref, cur, name, log):
             n = int(lab[1])
             if n < len(pool):
                 pos = pool[n]
+                if lab[0] == "loop":
+                    # the invariant may speak about the loop variable: the position is the end of the loop header
+                    q = pos
+                    while q < len(ref) and ref[q][1] != "{":
+                        q += 1
+                    if q < len(ref):
+                        pos = q
         elif lab and lab[0] in ("proof", "ghost", "opaque-arm") and ":" in sct["label"] and not sct["label"].startswith(("proof at-", "ghost at-")):
             head, anchor = sct["label"].split(":", 1)
             newa, p0 = relocate(anchor.strip())
